@@ -6,8 +6,9 @@ LEVEL_TEXT = ("for every registry meeting DecoderOK, every input and depth, Mult
               "transition clause E1, postconditions of scan) to keep the global tree invariant: every child-list entry c of every node p has "
               "c.parent is p and 0 <= c.start <= c.end <= len(p.value), siblings are distinct objects, the root is a fresh node carrying the "
               "unmodified input; Node.__init__/shift/original/shift_nodes are proved against their contracts")
-LEVEL_NOTE = ("the engine proof assumes DecoderOK of the registry entries; DecoderOK (spans, parent links, freshness, write frame) is PROVED for the 21 "
-              "decoder functions under contract and only run-time checked (bounded) for the others, which are named in the evidence, the stable-sort contract of sorted(); acyclicity of the result is argued, not proved; a bounded stand-in "
+LEVEL_NOTE = ("the engine proof assumes DecoderOK of the registry entries; DecoderOK (spans, parent links, freshness, write frame) is PROVED for every decoder "
+              "the default registry ships (the keyword searchers through find_keywords), under the assumed contracts of the library code named in the evidence and with the recorded "
+              "find_powershell_strings findings carved out; the stable-sort contract of sorted() is assumed; acyclicity of the result is argued, not proved; a bounded stand-in "
               "(real engine on enumerated hit configurations) runs next to the proof")
 DESIGN_REF = "DESIGN.md 5, 6 (C03)"
 from props import decoder_common as DC  # noqa: E402
